@@ -38,7 +38,8 @@ class Contract:
         self.qualname = qualname
         self.name = qualname.split(".")[-1]
         self.source = kw.get("source", qualname)
-        self.immutable = kw.get("immutable", [])  # parameters whose object the function must not modify in place  # the function whose source is verified (several contracts may share one)
+        self.immutable = kw.get("immutable", [])  # parameters whose object the function must not modify in place
+        self.narrow = kw.get("narrow", [])  # union-typed variables that `if isinstance(v, C):` re-types to their alternative (flow typing)  # the function whose source is verified (several contracts may share one)
         self.params = kw.get("params", {})
         self.defaults = kw.get("defaults", {})
         self.free = kw.get("free", {})
@@ -508,6 +509,8 @@ class Engine(ExprMixin, CallMixin):
                 and isinstance(test.args[0], ast.Name)):
             return None
         name = test.args[0].id
+        if self.cur is None or name not in self.cur.narrow:
+            return None
         v = st.env.get(name)
         if not (isinstance(v, SV) and isinstance(v.ty, T.Union)):
             return None
